@@ -232,9 +232,17 @@ func genC01Case(t *rapid.T) (*ScalarCase, bool) {
 			n = 40
 			near = false
 		}
-		if bigLen {
+		switch {
+		case !bigLen && n >= 3 && rapid.IntRange(0, 11).Draw(t, "invalidRun") == 7:
+			// a run of bytes that are no valid UTF-8: every such byte counts as one character (Go's reading of a string)
+			run := rapid.SampledFrom([]string{"\xf0\x9f\x98", "\xff\xfe", "\x80\x80\x80", "\xed\xa0\x80"}).Draw(t, "run")
+			if len(run) > int(n) {
+				run = run[:n]
+			}
+			c.T, c.Val = desc.Scalar("string"), desc.Str(strOfRunes(t, int(n)-len(run))+run)
+		case bigLen:
 			c.T, c.Val = desc.Scalar("string"), desc.Str(strings.Repeat(rapid.SampledFrom([]string{"长", "a", "é"}).Draw(t, "bigRune"), int(n)))
-		} else {
+		default:
 			c.T, c.Val = desc.Scalar("string"), desc.Str(strOfRunes(t, int(n)))
 		}
 	case strings.HasPrefix(kind, "slice"):
